@@ -223,6 +223,8 @@ package core
 //@   ensures [only-shrinks] t != nil ==> (forall x *regionItem :: {bthas[t.tree][x]} bthas[t.tree][x] ==> old(bthas[t.tree][x]))
 //@   ensures [removes-the-holder] @index forall x *regionItem :: {bthas[t.tree][x]} bthas[t.tree][x] == (old(bthas[t.tree][x]) && !(holdsKey(x.region, region.meta.StartKey) && x.region.meta.Id == region.meta.Id))
 //@   ensures [count] @index btlen[t.tree] == old(btlen[t.tree]) - ite(result == nil, 0, 1)
+//@   ensures [nil-means-unchanged] @index result == nil ==> (forall x *regionItem :: {bthas[t.tree][x]} bthas[t.tree][x] == old(bthas[t.tree][x]))
+//@   ensures [non-nil-means-removed] @index result != nil ==> typeisptr(result, regionItem) && old(bthas[t.tree][asptr(result, regionItem)]) && !bthas[t.tree][asptr(result, regionItem)]
 //@   modifies t.totalSize, ghost bthas[t.tree], ghost btlen[t.tree]
 
 // getOverlaps: exactly the indexed regions that overlap the argument, in key order, each once. own/idx are the
@@ -266,11 +268,47 @@ package core
 //@   requires t != nil && origin != nil && region != nil
 //@   modifies t.totalSize
 
+// search: the indexed region that holds the key - nil exactly when no indexed region holds it.
+//@ func (*regionTree).search
+//@   props C07
+//@   requires t != nil && t.tree != nil && itemsOK(t.tree)
+//@   requires [index-ok] @index disjointT(t.tree)
+//@   at find 1 mode index when index
+//@   ensures [holds-key] result != nil ==> holdsKey(result, regionKey) && (exists x *regionItem :: bthas[t.tree][x] && x.region == result)
+//@   ensures [nil-means-none] @index result == nil ==> (forall x *regionItem :: {bthas[t.tree][x]} bthas[t.tree][x] ==> !holdsKey(x.region, regionKey))
+//@   ensures [the-only-holder] @index result != nil ==> (forall x *regionItem :: {bthas[t.tree][x]} bthas[t.tree][x] && holdsKey(x.region, regionKey) ==> x.region == result)
+//@   modifies nothing
+
+// getAdjacentRegions: the items with the greatest start key below, and the least start key above, the region's start key.
+//@ func (*regionTree).getAdjacentRegions
+//@   props C07
+//@   requires t != nil && t.tree != nil && itemsOK(t.tree) && region != nil && region.meta != nil
+//@   at AscendGreaterOrEqual 1 invariant next == nil && (forall j :: {itseq[j]} 0 <= j && j < itk ==> btkey(ufcast(itseq[j], regionItem)) == keyord(region.meta.StartKey))
+//@   at DescendLessOrEqual 1 invariant prev == nil && (forall j :: {itseq[j]} 0 <= j && j < itk ==> btkey(ufcast(itseq[j], regionItem)) == keyord(region.meta.StartKey))
+//@   ensures [next-is-above] r1 != nil ==> bthas[t.tree][r1] && btkey(r1) > keyord(region.meta.StartKey)
+//@   ensures [next-is-least] r1 != nil ==> (forall x *regionItem :: {bthas[t.tree][x]} bthas[t.tree][x] && btkey(x) > keyord(region.meta.StartKey) ==> btkey(x) >= btkey(r1))
+//@   ensures [no-next-means-none] r1 == nil ==> (forall x *regionItem :: {bthas[t.tree][x]} bthas[t.tree][x] ==> btkey(x) <= keyord(region.meta.StartKey))
+//@   ensures [prev-is-below] r0 != nil ==> bthas[t.tree][r0] && btkey(r0) < keyord(region.meta.StartKey)
+//@   ensures [prev-is-greatest] r0 != nil ==> (forall x *regionItem :: {bthas[t.tree][x]} bthas[t.tree][x] && btkey(x) < keyord(region.meta.StartKey) ==> btkey(x) <= btkey(r0))
+//@   ensures [no-prev-means-none] r0 == nil ==> (forall x *regionItem :: {bthas[t.tree][x]} bthas[t.tree][x] ==> btkey(x) >= keyord(region.meta.StartKey))
+//@   modifies nothing
+
+// searchPrev: the indexed region that ends exactly where the holder of the key starts, if both exist.
+//@ func (*regionTree).searchPrev
+//@   props C07
+//@   requires t != nil && t.tree != nil && itemsOK(t.tree)
+//@   requires [index-ok] @index disjointT(t.tree)
+//@   at find 1 mode index when index
+//@   ensures [is-the-left-neighbour] result != nil ==> (exists x *regionItem, y *regionItem :: bthas[t.tree][x] && bthas[t.tree][y] && x.region == result && holdsKey(y.region, regionKey) && str(x.region.meta.EndKey) == str(y.region.meta.StartKey))
+//@   ensures [nil-means-no-left-neighbour] @index result == nil ==> (forall x *regionItem, y *regionItem :: {bthas[t.tree][x], bthas[t.tree][y]} bthas[t.tree][x] && bthas[t.tree][y] && holdsKey(y.region, regionKey) ==> !(len(x.region.meta.EndKey) > 0 && str(x.region.meta.EndKey) == str(y.region.meta.StartKey) && btkey(x) < btkey(y)))
+//@   modifies nothing
+
 // The per-store sub-indexes are separate trees: maintaining them never touches the main index (see C07).
 //@ func (*RegionsInfo).removeRegionFromSubTree
 //@   assumed
 //@   ensures forall x *regionItem :: {inTree(r, x)} inTree(r, x) == old(inTree(r, x))
 //@   ensures [only-shrinks] forall u *btree.BTree, x *regionItem :: {bthas[u][x]} bthas[u][x] ==> old(bthas[u][x])
+//@   ensures btlen[r.tree.tree] == old(btlen[r.tree.tree])
 //@   modifies all regionTree.totalSize, ghost bthas, ghost btlen
 //@ func (*RegionsInfo).updateSubTreeStat
 //@   assumed
@@ -295,7 +333,9 @@ package core
 //@   at remove 1 mode index
 //@   ensures [unindexed] forall x *regionItem :: {inTree(r, x)} inTree(r, x) == (old(inTree(r, x)) && !(holdsKey(x.region, region.meta.StartKey) && x.region.meta.Id == region.meta.Id))
 //@   requires [served] @cache cacheOK(r) && cachedRegion(r, region.meta.Id) == region
-//@   ensures [keeps-cache-ok] @cache wfMapVals(r) && wfMapInTree(r) && wfTreeInMap(r) && itemsOK(r.tree.tree) && disjointT(r.tree.tree) && sepRI(r)
+//@   ensures [keeps-cache-ok] @cache wfMapVals(r) && wfMapInTree(r) && wfTreeInMap(r) && itemsOK(r.tree.tree) && disjointT(r.tree.tree) && sepRI(r) && countOK(r)
+//@   ensures [tree-count] (forall x *regionItem :: {inTree(r, x)} inTree(r, x) == old(inTree(r, x))) ==> btlen[r.tree.tree] == old(btlen[r.tree.tree])
+//@   ensures [map-count] len(r.regions) == old(len(r.regions)) - ite(old(in(r.regions, region.meta.Id)), 1, 0)
 //@   modifies r.regions[*], all regionTree.totalSize, ghost bthas, ghost btlen
 
 // BasicCluster.RemoveRegion drops a served region (the caller passes the region currently cached under its id).
@@ -317,25 +357,91 @@ package core
 //@   ensures [rejected-changes-nothing] count("PutRegion") == 0 ==> len(result) == 1 && result[0] == region
 //@   modifies all RegionsInfo.*, all regionTree.*, all regionItem.*, all map[uint64]*regionItem, all map[uint64]*regionTree, ghost bthas, ghost btlen
 
+// ---- C07: the cache's lookups answer like a linear scan over the cached regions ----
+// SearchRegion: nil exactly when no cached region holds the key; otherwise THE cached region that holds it.
+//@ func (*RegionsInfo).SearchRegion
+//@   props C07
+//@   requires wfRI(r) && itemsOK(r.tree.tree) && disjointT(r.tree.tree)
+//@   at search 1 mode index
+//@   ensures [served-and-holds] result != nil ==> holdsKey(result, regionKey) && in(r.regions, result.meta.Id) && r.regions[result.meta.Id].region == result
+//@   ensures [nil-means-none] result == nil ==> (forall id uint64 :: {in(r.regions, id)} in(r.regions, id) ==> !holdsKey(r.regions[id].region, regionKey))
+//@   ensures [the-only-holder] result != nil ==> (forall id uint64 :: {in(r.regions, id)} in(r.regions, id) && holdsKey(r.regions[id].region, regionKey) ==> r.regions[id].region == result)
+//@   modifies nothing
+
+// SearchPrevRegion: the cached region that ends exactly where the holder of the key starts.
+//@ func (*RegionsInfo).SearchPrevRegion
+//@   props C07
+//@   requires wfRI(r) && itemsOK(r.tree.tree) && disjointT(r.tree.tree)
+//@   at searchPrev 1 mode index
+//@   ensures [is-the-left-neighbour] result != nil ==> in(r.regions, result.meta.Id) && r.regions[result.meta.Id].region == result && (exists id uint64 :: in(r.regions, id) && holdsKey(r.regions[id].region, regionKey) && str(result.meta.EndKey) == str(r.regions[id].region.meta.StartKey))
+//@   modifies nothing
+
+// GetAdjacentRegions: the cached regions that touch the given region on its left and on its right.
+//@ func (*RegionsInfo).GetAdjacentRegions
+//@   props C07
+//@   requires wfRI(r) && itemsOK(r.tree.tree) && disjointT(r.tree.tree) && region != nil && region.meta != nil
+//@   ensures [left-touches] r0 != nil ==> in(r.regions, r0.meta.Id) && r.regions[r0.meta.Id].region == r0 && str(r0.meta.EndKey) == str(region.meta.StartKey) && keyord(r0.meta.StartKey) < keyord(region.meta.StartKey)
+//@   ensures [right-touches] r1 != nil ==> in(r.regions, r1.meta.Id) && r.regions[r1.meta.Id].region == r1 && str(region.meta.EndKey) == str(r1.meta.StartKey) && keyord(r1.meta.StartKey) > keyord(region.meta.StartKey)
+//@   ensures [no-left-means-none] r0 == nil ==> (forall id uint64 :: {in(r.regions, id)} in(r.regions, id) ==> !(keyord(r.regions[id].region.meta.StartKey) < keyord(region.meta.StartKey) && str(r.regions[id].region.meta.EndKey) == str(region.meta.StartKey)))
+//@   requires [range-is-cached] @cached cachedRegion(r, region.meta.Id) != nil && sameRange(cachedRegion(r, region.meta.Id), region) && validRange(region)
+//@   ensures [no-right-means-none] @cached r1 == nil ==> (forall id uint64 :: {in(r.regions, id)} in(r.regions, id) ==> !(keyord(r.regions[id].region.meta.StartKey) > keyord(region.meta.StartKey) && str(region.meta.EndKey) == str(r.regions[id].region.meta.StartKey)))
+//@   modifies nothing
+
+// The key index holds as many items as the id map holds regions.
+//@ pure countOK(r *RegionsInfo) = len(r.regions) == btlen[r.tree.tree]
+
+// The number of indexed regions equals the number of cached regions.
+//@ func (*RegionsInfo).TreeLen
+//@   props C07
+//@   requires r != nil && r.tree != nil && r.tree.tree != nil
+//@   ensures [counts-indexed] result == btlen[r.tree.tree]
+//@   ensures [as-many-as-cached] countOK(r) ==> result == len(r.regions)
+//@   modifies nothing
+//@ func (*RegionsInfo).Len
+//@   props C07
+//@   requires r != nil
+//@   ensures result == len(r.regions)
+//@   modifies nothing
+
+// ScanRange: the cached regions from the one that holds (or first follows) the start key, in key order, up to the
+// end key and the limit - exactly the prefix a linear scan over the key-ordered cached regions would produce.
+//@ func (*RegionsInfo).ScanRange
+//@   props C07
+//@   requires wfRI(r) && itemsOK(r.tree.tree) && disjointT(r.tree.tree)
+//@   at find * mode index
+//@   at AscendGreaterOrEqual * invariant len(res) == itk && (limit > 0 ==> itk <= limit) && (forall j :: {res[j]} 0 <= j && j < itk ==> res[j] == ufcast(itseq[j], regionItem).region && (len(endKey) == 0 || btkey(ufcast(itseq[j], regionItem)) < keyord(endKey)))
+//@   at scanRange 1 after assert [listed-in-key-order] forall i, j :: {res[i], res[j]} 0 <= i && i < j && j < len(res) ==> keyord(res[i].meta.StartKey) < keyord(res[j].meta.StartKey)
+//@   at scanRange 1 after assert [listed-from-start] forall i :: {res[i]} 0 <= i && i < len(res) ==> holdsKey(res[i], startKey) || keyord(res[i].meta.StartKey) >= keyord(startKey)
+//@   at scanRange 1 after assert [listed-at-its-rank] forall id uint64 :: {in(r.regions, id)} in(r.regions, id) && (holdsKey(r.regions[id].region, startKey) || keyord(r.regions[id].region.meta.StartKey) >= keyord(startKey)) && (len(endKey) == 0 || keyord(r.regions[id].region.meta.StartKey) < keyord(endKey)) ==> (0 <= iterrank("AscendGreaterOrEqual", 0)[r.regions[id]] && iterrank("AscendGreaterOrEqual", 0)[r.regions[id]] < len(res) && res[iterrank("AscendGreaterOrEqual", 0)[r.regions[id]]] == r.regions[id].region) || (limit > 0 && len(res) == limit && keyord(res[limit - 1].meta.StartKey) < keyord(r.regions[id].region.meta.StartKey))
+//@   ensures [in-key-order] forall i, j :: {result[i], result[j]} 0 <= i && i < j && j < len(result) ==> keyord(result[i].meta.StartKey) < keyord(result[j].meta.StartKey)
+//@   ensures [all-cached] forall i :: {result[i]} 0 <= i && i < len(result) ==> result[i] != nil && in(r.regions, result[i].meta.Id) && r.regions[result[i].meta.Id].region == result[i]
+//@   ensures [all-before-end] forall i :: {result[i]} 0 <= i && i < len(result) ==> len(endKey) == 0 || keyord(result[i].meta.StartKey) < keyord(endKey)
+//@   ensures [all-from-start] forall i :: {result[i]} 0 <= i && i < len(result) ==> holdsKey(result[i], startKey) || keyord(result[i].meta.StartKey) >= keyord(startKey)
+//@   ensures [respects-limit] limit > 0 ==> len(result) <= limit
+//@   ensures [no-gaps] forall id uint64 :: {in(r.regions, id)} in(r.regions, id) && (holdsKey(r.regions[id].region, startKey) || keyord(r.regions[id].region.meta.StartKey) >= keyord(startKey)) && (len(endKey) == 0 || keyord(r.regions[id].region.meta.StartKey) < keyord(endKey)) ==> (exists i :: 0 <= i && i < len(result) && result[i] == r.regions[id].region) || (limit > 0 && len(result) == limit && keyord(result[limit - 1].meta.StartKey) < keyord(r.regions[id].region.meta.StartKey))
+//@   modifies nothing
+
 // The whole representation invariant of the region cache: id map and key index coupled, indexed regions well
 // formed and pairwise disjoint, per-store sub-indexes separate from the main index.
-//@ pure cacheOK(r *RegionsInfo) = wfRI(r) && itemsOK(r.tree.tree) && disjointT(r.tree.tree) && sepRI(r)
+//@ pure cacheOK(r *RegionsInfo) = wfRI(r) && itemsOK(r.tree.tree) && disjointT(r.tree.tree) && sepRI(r) && countOK(r)
 
 // SetRegion: afterwards the id maps to the new region; every indexed region that overlapped it is gone from the
 // id map and the index and is returned; every other region stays as it was; the indexed regions stay pairwise
 // disjoint and the id map and the index stay coupled.
 //@ func (*RegionsInfo).SetRegion
 //@   props C06 C07
-//@   requires wfRI(r) && itemsOK(r.tree.tree) && disjointT(r.tree.tree) && sepRI(r) && region != nil && allocated(region) && region.meta != nil && allocated(region.meta) && validRange(region)
+//@   requires wfRI(r) && itemsOK(r.tree.tree) && disjointT(r.tree.tree) && sepRI(r) && countOK(r) && region != nil && allocated(region) && region.meta != nil && allocated(region.meta) && validRange(region)
 //@   ensures [wf-map-values] wfMapVals(r)
 //@   ensures [wf-map-in-tree] wfMapInTree(r)
 //@   ensures [wf-tree-in-map] wfTreeInMap(r)
 //@   loop 1 invariant [indexed-stay-mapped] wfTreeInMap(r)
 //@   loop 1 invariant [sub-indexes-ok] sepRI(r)
+//@   loop 1 invariant [count] len(r.regions) == btlen[pre(r.tree.tree)] + (len(overlaps) - 1 - rangeindex)
 //@   loop 1 invariant [map-values-ok] wfMapVals(r)
 //@   loop 1 invariant [mapped-are-indexed-or-pending] forall id uint64 :: {inTree(r, r.regions[id])} in(r.regions, id) ==> inTree(r, r.regions[id]) || (rangeindex < uf("indexOf", overlaps, r.regions[id]) && uf("indexOf", overlaps, r.regions[id]) < len(overlaps) && overlaps[uf("indexOf", overlaps, r.regions[id])] == r.regions[id].region)
 //@   loop 1 invariant [displaced-unmapped-or-pending] forall x *regionItem :: {old(inTree(r, x))} old(inTree(r, x)) && old(x.region.meta.Id) != region.meta.Id && ovl(old(x.region), region) ==> !in(r.regions, old(x.region.meta.Id)) || rangeindex < uf("indexOf", overlaps, x)
 //@   ensures [wf-items] itemsOK(r.tree.tree)
+//@   ensures [as-many-indexed-as-mapped] countOK(r)
 //@   ensures [wf-sep] sepRI(r)
 //@   ensures [disjoint] disjointT(r.tree.tree)
 //@   ensures [cached] cachedRegion(r, region.meta.Id) == region
@@ -366,13 +472,13 @@ package core
 //@   loop 4 modifies r.pendingPeers[*], all regionTree.totalSize, ghost bthas, ghost btlen
 //@   loop 2 isolated
 //@   loop 2 invariant item != nil && allocated(item) && item.region == region && allocated(r.tree) && allocated(r.tree.tree)
-//@   loop 2 invariant r.tree == pre(r.tree) && r.tree.tree == pre(r.tree.tree) && (forall x *regionItem :: {bthas[pre(r.tree.tree)][x]} bthas[pre(r.tree.tree)][x] == pre(inTree(r, x))) && sepRI(r)
+//@   loop 2 invariant btlen[pre(r.tree.tree)] == pre(btlen[r.tree.tree]) && r.tree == pre(r.tree) && r.tree.tree == pre(r.tree.tree) && (forall x *regionItem :: {bthas[pre(r.tree.tree)][x]} bthas[pre(r.tree.tree)][x] == pre(inTree(r, x))) && sepRI(r)
 //@   loop 3 isolated
 //@   loop 3 invariant item != nil && allocated(item) && item.region == region && allocated(r.tree) && allocated(r.tree.tree)
-//@   loop 3 invariant r.tree == pre(r.tree) && r.tree.tree == pre(r.tree.tree) && (forall x *regionItem :: {bthas[pre(r.tree.tree)][x]} bthas[pre(r.tree.tree)][x] == pre(inTree(r, x))) && sepRI(r)
+//@   loop 3 invariant btlen[pre(r.tree.tree)] == pre(btlen[r.tree.tree]) && r.tree == pre(r.tree) && r.tree.tree == pre(r.tree.tree) && (forall x *regionItem :: {bthas[pre(r.tree.tree)][x]} bthas[pre(r.tree.tree)][x] == pre(inTree(r, x))) && sepRI(r)
 //@   loop 4 isolated
 //@   loop 4 invariant item != nil && allocated(item) && item.region == region && allocated(r.tree) && allocated(r.tree.tree)
-//@   loop 4 invariant r.tree == pre(r.tree) && r.tree.tree == pre(r.tree.tree) && (forall x *regionItem :: {bthas[pre(r.tree.tree)][x]} bthas[pre(r.tree.tree)][x] == pre(inTree(r, x))) && sepRI(r)
+//@   loop 4 invariant btlen[pre(r.tree.tree)] == pre(btlen[r.tree.tree]) && r.tree == pre(r.tree) && r.tree.tree == pre(r.tree.tree) && (forall x *regionItem :: {bthas[pre(r.tree.tree)][x]} bthas[pre(r.tree.tree)][x] == pre(inTree(r, x))) && sepRI(r)
 //@   modifies r.regions[*], all regionItem.region, all regionTree.totalSize, r.leaders[*], r.followers[*], r.learners[*], r.pendingPeers[*], ghost bthas, ghost btlen
 
 // PutRegion: the put must be acceptable against the cache as it is NOW (the caller re-validates under the lock that
@@ -382,8 +488,8 @@ package core
 //@   option event PutRegion
 //@   requires [acceptable-now] bc != nil && wfRI(bc.Regions) && region != nil && region.meta != nil && acceptable(bc.Regions, region)
 //@   requires [valid-range] validRange(region)
-//@   requires [index-ok] itemsOK(bc.Regions.tree.tree) && disjointT(bc.Regions.tree.tree) && sepRI(bc.Regions) && allocated(region) && allocated(region.meta)
-//@   ensures [wf] wfRI(bc.Regions) && itemsOK(bc.Regions.tree.tree) && disjointT(bc.Regions.tree.tree) && sepRI(bc.Regions)
+//@   requires [index-ok] itemsOK(bc.Regions.tree.tree) && disjointT(bc.Regions.tree.tree) && sepRI(bc.Regions) && countOK(bc.Regions) && allocated(region) && allocated(region.meta)
+//@   ensures [wf] wfRI(bc.Regions) && itemsOK(bc.Regions.tree.tree) && disjointT(bc.Regions.tree.tree) && sepRI(bc.Regions) && countOK(bc.Regions)
 //@   ensures [cached] cachedRegion(bc.Regions, region.meta.Id) == region
 //@   ensures [never-regresses] old(cachedRegion(bc.Regions, region.meta.Id)) != nil ==> !staleVs(cachedRegion(bc.Regions, region.meta.Id), old(cachedRegion(bc.Regions, region.meta.Id)))
 //@   ensures [displaced-returned] forall i :: {result[i]} 0 <= i && i < len(result) ==> result[i] != nil && allocated(result[i]) && result[i].meta != nil
